@@ -107,6 +107,17 @@ class SigmaCorrelationCondition:
     percentile: int | None = field(default=None)
     source: SigmaRuleLocation | None = field(default=None, compare=False)
 
+    @staticmethod
+    def _number(value: Any) -> int:
+        """
+        A count or percentile as given: whole numbers as int, a number with a fractional part (a
+        threshold for an average or a percentile like 99.9) is kept instead of being cut down.
+        """
+        if isinstance(value, float) and value == value and value not in (float("inf"), float("-inf")):
+            if not value.is_integer():
+                return value  # type: ignore[return-value]
+        return int(value)
+
     @classmethod
     def from_dict(
         cls: type[Self],
@@ -136,7 +147,7 @@ class SigmaCorrelationCondition:
             if op in d:
                 cond_op = SigmaCorrelationConditionOperator[op.upper()]
                 try:
-                    cond_count = int(d[op])
+                    cond_count = cls._number(d[op])
                 except (ValueError, TypeError, OverflowError):
                     raise sigma_exceptions.SigmaCorrelationConditionError(
                         f"'{ d[op] }' is no valid Sigma correlation condition count", source=source
@@ -151,7 +162,7 @@ class SigmaCorrelationCondition:
 
         # Condition percentile (for value_percentile correlation type)
         try:
-            cond_percentile = int(d["percentile"])
+            cond_percentile = cls._number(d["percentile"])
         except KeyError:
             cond_percentile = None
         except (ValueError, TypeError, OverflowError):
